@@ -34,7 +34,7 @@ Qed.
 
 (* ---------- relativization ---------- *)
 Definition sty_rel (sty : style) (o : name) (rel : bool) : style :=
-  mkStyle (Some o) rel (s_hex_chunk sty) (s_hex_sep sty) (s_b64_chunk sty) (s_b64_sep sty).
+  mkStyle (Some o) rel (s_hex_chunk sty) (s_hex_sep sty) (s_b64_chunk sty) (s_b64_sep sty) (s_txt_utf8 sty).
 
 Lemma derel_not_abs r o x : derelativize r (x :: o) = Ok (r ++ x :: o) -> is_absolute r = false.
 Proof.
